@@ -365,6 +365,10 @@ def strip_obs(ev):
 
 
 def write_evidence(prop, tier, seed, coverage, wall, violations, assumptions):
+    if os.path.realpath(REPO) != "/repo":
+        # a run against a scratch worktree (VERIF_REPO: a seeded change or a refactoring being tried) is not evidence
+        # about /repo: the committed evidence files only ever describe runs on /repo itself
+        return
     os.makedirs(os.path.join(VERIF, "evidence"), exist_ok=True)
     ev = {"property_id": prop, "tier": tier, "seed": seed, "level": "model_checking", "coverage": coverage,
           "assumptions": assumptions, "wall_s": round(wall, 1), "violations": violations}
